@@ -12,7 +12,8 @@
 (*            zv = slice handed in, breaks = zone_cat_breaks, counts = values appended) were      *)
 (*            recorded                                                                            *)
 (* Clause: decided against the abstract contingency table only.  Extra: comparison with the       *)
-(* transcription of the code (CrosstabAlg, variant CODEVARIANT): steps_ok / model_ok / drift_*.   *)
+(* transcription of the code (CrosstabAlg, variant CODEVARIANT): steps_ok / model_ok / drift_*     *)
+(* when the property holds, like_without_<repair> / unexplained when it does not.                  *)
 EXTENDS ZonalOps, Json, IOUtils
 
 CONSTANT CODEVARIANT
@@ -53,29 +54,52 @@ Clause(c) ==
             ELSE IF c.agg = "percentage" THEN "entry_not_the_percentage_of_the_zone_valid_cells"
             ELSE "entry_not_the_count_of_zone_and_category"
 
-\* ---- comparison with the transcription of the code (drift only)
-Extra(c) ==
-  LET p == IF c.steps = 1 THEN c.si ELSE StableArgSort(c.z) IN
-  IF c.steps = 1 /\ ~IsSortingPerm(c.si, c.z) /\ ~("strip" \in CODEVARIANT) THEN "drift_sorted_indices"
+\* ---- comparison with the transcription of the code
+\* a full sorting permutation from the recorded sorted_indices (which has lost its leading -inf cells when the
+\* code drops them) or, without a record, the stable one
+Negs(c) == SelectSeq([k \in 1..Len(c.z) |-> k], LAMBDA k : c.z[k] = NINF)
+FullPerm(c) ==
+  IF c.steps = 1 /\ IsSortingPerm(c.si, c.z) THEN c.si
+  ELSE IF c.steps = 1 /\ IsSortingPerm(Negs(c) \o c.si, c.z) THEN Negs(c) \o c.si
+  ELSE StableArgSort(c.z)
+Alg(c, variant) == CrosstabAlg(c.dim, c.z, c.vs, c.cats, FullPerm(c), c.nd, ZReq(c), CReq(c), c.agg, variant, "none")
+TableSame(c, a) ==
+  /\ a.labels = c.rows /\ a.cols = c.cols /\ Len(a.rows) = Len(c.tab)
+  /\ \A k \in 1..Len(c.tab) : /\ Len(c.tab[k]) = Len(c.cols)
+                              /\ \A m \in 1..Len(c.cols) :
+                                   /\ HasCat(a.rows[k], c.cols[m])
+                                   /\ Shown(c.dim, c.agg, a.rows[k], c.cols[m]) = c.tab[k][m]
+EventsSame(c, a) ==
+  /\ Len(c.ev) = Len(a.rows)
+  /\ \A k \in 1..Len(c.ev) :
+        /\ c.ev[k].zv = a.rows[k].slice
+        /\ c.ev[k].breaks = a.rows[k].breaks
+        /\ c.ev[k].counts = [m \in 1..Len(a.rows[k].entries) |-> a.rows[k].entries[m].val[1]]
+
+\* property holds: does the code still follow the transcription (drift only, never a violation)?
+Drift(c) ==
+  IF c.steps = 1 /\ ~("strip" \in CODEVARIANT) /\ ~IsSortingPerm(c.si, c.z) /\ ~IsSortingPerm(Negs(c) \o c.si, c.z)
+  THEN "drift_sorted_indices"
   \* without the recorded argsort result the shifted slices of a raster with -inf zones depend on numpy's
   \* (unspecified) order among equal zones: no model to compare with
-  ELSE IF c.steps = 0 /\ ~("strip" \in CODEVARIANT) /\ \E k \in DOMAIN c.z : c.z[k] = NINF THEN "nomodel"
-  ELSE IF ~IsSortingPerm(p, c.z) THEN "nomodel"
-  ELSE
-  LET a == CrosstabAlg(c.dim, c.z, c.vs, c.cats, p, c.nd, ZReq(c), CReq(c), c.agg, CODEVARIANT, "none")
-      tableSame == /\ a.labels = c.rows /\ a.cols = c.cols /\ Len(a.rows) = Len(c.tab)
-                   /\ \A k \in 1..Len(c.tab) : /\ Len(c.tab[k]) = Len(c.cols)
-                                               /\ \A m \in 1..Len(c.cols) :
-                                                    /\ HasCat(a.rows[k], c.cols[m])
-                                                    /\ Shown(c.dim, c.agg, a.rows[k], c.cols[m]) = c.tab[k][m]
-      eventsSame == /\ Len(c.ev) = Len(a.rows)
-                    /\ \A k \in 1..Len(c.ev) :
-                          /\ c.ev[k].zv = a.rows[k].slice
-                          /\ c.ev[k].breaks = a.rows[k].breaks
-                          /\ c.ev[k].counts = [m \in 1..Len(a.rows[k].entries) |-> a.rows[k].entries[m].val[1]]
-  IN IF ~tableSame THEN "drift_table"
-     ELSE IF c.steps = 1 /\ c.dim = 2 THEN (IF eventsSame THEN "steps_ok" ELSE "drift_events")
-     ELSE "model_ok"
+  ELSE IF c.steps = 0 /\ ~("strip" \in CODEVARIANT) /\ ~("dropneginf" \in CODEVARIANT)
+          /\ \E k \in DOMAIN c.z : c.z[k] = NINF THEN "nomodel"
+  ELSE LET a == Alg(c, CODEVARIANT) IN
+       IF ~TableSame(c, a) THEN "drift_table"
+       ELSE IF c.steps = 1 /\ c.dim = 2 THEN (IF EventsSame(c, a) THEN "steps_ok" ELSE "drift_events")
+       ELSE "model_ok"
 
-ASSUME \A i \in 1..Len(Cases) : PrintT(<<"VERDICT", i, Clause(Cases[i]), Extra(Cases[i])>>)
+\* property fails: which single repair, taken out of the transcription, reproduces exactly what was observed?
+\* (used by the driver only to choose among the known classes a failing case belongs to)
+Diagnose(c) ==
+  IF TableSame(c, Alg(c, CODEVARIANT \ {"dropneginf"})) THEN "like_without_dropneginf"
+  ELSE IF TableSame(c, Alg(c, CODEVARIANT \ {"labels"})) THEN "like_without_labels"
+  ELSE IF TableSame(c, Alg(c, CODEVARIANT \ {"catstart"})) THEN "like_without_catstart"
+  ELSE "unexplained"
+
+Verdict(i) == LET c == Cases[i]
+                  cl == Clause(c)
+              IN <<"VERDICT", i, cl, IF cl = "ok" THEN Drift(c) ELSE Diagnose(c)>>
+
+ASSUME \A i \in 1..Len(Cases) : PrintT(Verdict(i))
 =============================================================================
